@@ -17,6 +17,9 @@ def run_one(args):
     repo=os.path.join(w,'repo')
     if os.path.exists(repo): shutil.rmtree(repo)
     shutil.copytree('/tmp/w0/cross/base', repo)
+    for root, _d, files in os.walk(os.path.join(repo, 'src')):
+        for f in files:
+            os.utime(os.path.join(root, f), None)   # fresh mtimes: cargo must never reuse a library built from another tree
     if n != 'CLEAN':
         p=subprocess.run(['patch','-p1','-s','-i',os.path.join(SEEDED,n,'patch.diff')],cwd=repo,capture_output=True,text=True)
         if p.returncode!=0: return n, None, 'patch failed'
